@@ -18,7 +18,7 @@ PYTHONPATH=$WT timeout 1200 /venv/bin/python $DEMO > /tmp/seed_demo_mut_$TAG.txt
 tail -3 /tmp/seed_demo_mut_$TAG.txt | cut -c1-200 | tee -a $RES
 VERIF_REPO=$WT python3 /verif/tools/baseline_check.py | head -3 | tee -a $RES
 for P in "$@"; do
-  (cd /verif && VERIF_REPO=$WT VERIF_OUT=/tmp/seedout/$TAG VERIF_JOBS=${SEED_JOBS:-6} ./check $P > /verif/out/seed_${TAG}_$P.log 2>&1; echo "check $P exit=$?  $(grep -c '^VIOLATION' /verif/out/seed_${TAG}_$P.log) violation line(s)") | tee -a $RES
+  (cd ${VERIF_ROOT:-/verif} && VERIF_REPO=$WT VERIF_OUT=/tmp/seedout/$TAG VERIF_JOBS=${SEED_JOBS:-6} ./check $P > /verif/out/seed_${TAG}_$P.log 2>&1; echo "check $P exit=$?  $(grep -c '^VIOLATION' /verif/out/seed_${TAG}_$P.log) violation line(s)") | tee -a $RES
   grep '^VIOLATION' /verif/out/seed_${TAG}_$P.log | head -4 | cut -c1-220 | tee -a $RES
 done
 git checkout -q -- . ; rm -f /tmp/seed_demo_clean_$TAG.txt /tmp/seed_demo_mut_$TAG.txt
